@@ -91,3 +91,12 @@ def digest_alg(name):
     """(hashlib-style name, output size) of the five SUIT digest algorithm names used by the encrypt command."""
     return (("sha256", 32) if name == "sha-256" else ("sha384", 48) if name == "sha-384" else ("sha512", 64) if name == "sha-512"
             else ("shake128", 16) if name == "shake128" else ("shake256", 32))
+
+
+# ---- C13: vendor / class identifiers -----------------------------------------------------------------
+def vendor_id(vendor_name):
+    return UUID5(NAMESPACE_DNS, vendor_name)
+
+
+def class_id(vendor_name, class_name):
+    return UUID5(UUID5(NAMESPACE_DNS, vendor_name), class_name)
